@@ -12,7 +12,10 @@ import (
 	"regexp"
 	"sort"
 
+	"go.minekube.com/brigodier"
+	"go.minekube.com/gate/pkg/edition/java/proto/packet"
 	"go.minekube.com/gate/pkg/edition/java/proto/util"
+	"go.minekube.com/gate/pkg/edition/java/proto/version"
 	"go.minekube.com/gate/pkg/gate/proto"
 
 	"verifharness/lib"
@@ -38,6 +41,7 @@ func main() {
 	f := lib.ParseFlags()
 	rng := lib.NewRng(f.Seed)
 	out := lib.NewOut("C04", f)
+	out.Imports = "From Verif Require Import Model.AvailCmds.\n"
 	out.Rule = "every (state, direction, type) of the live registry x sampled protocols (min, 1.8, 1.13, 1.19.3, 1.20.2, max; thorough: all) x generated values " +
 		"(boundary lengths 0/1/127/128/255/256/32767 within the decoder's limits, optionals present/absent, counts 0..3/127/128/256, small components/NBT/brigadier trees); " +
 		"a (type, version, value) whose encoder rejects the value is skipped and counted; distinct = distinct case term; non-trivial = non-empty body"
@@ -137,7 +141,7 @@ func main() {
 				desc["decode_error"] = derr.Error()
 			}
 			term := lib.App("Check.C04.mk", `"`+tn+`"`, lib.Z(int64(r.Proto)), lib.Bool(r.Dir == proto.ClientBound),
-				env1, lib.Bytes(b1.Bytes()), dec, env2, b2term)
+				env1, lib.Bytes(b1.Bytes()), dec, env2, b2term, "None")
 			tags := append([]string{"type=" + tn, fmt.Sprintf("protocol=%d", r.Proto), "dir=" + r.Dir.String()}, g.Tags...)
 			if frag[tn] {
 				tags = append(tags, "fragment")
@@ -145,6 +149,53 @@ func main() {
 				tags = append(tags, "opaque")
 			}
 			out.Add(term, desc, b1.Len() > 0, tags...)
+		}
+	}
+	// ---- AvailableCommands: command GRAPHS compared by value (bytes alone cannot see a node that was never serialised) ----
+	for _, r := range regs {
+		if r.Type.String() != "packet.AvailableCommands" {
+			continue
+		}
+		if r.Proto != version.Minecraft_1_13.Protocol && r.Proto != version.Minecraft_1_19_3.Protocol && r.Proto != version.Minecraft_1_19_4.Protocol &&
+			r.Proto != version.MaximumVersion.Protocol && f.Tier == "quick" {
+			continue
+		}
+		nTrees := 6
+		if f.Tier != "quick" {
+			nTrees = 3
+		}
+		for k := 0; k < nTrees; k++ {
+			cr := rng.Fork()
+			root, shape := cmdGraph(cr)
+			pk := &packet.AvailableCommands{RootNode: root}
+			var b1 bytes.Buffer
+			if err := util.RecoverFunc(func() error { return pk.Encode(r.Ctx(), &b1) }); err != nil {
+				skipped["packet.AvailableCommands"]++
+				out.Tag("encoder-rejected")
+				continue
+			}
+			orig := graphTerm(root)
+			p2 := r.NewPacket()
+			rd := bytes.NewReader(b1.Bytes())
+			derr := util.RecoverFunc(func() error { return p2.Decode(r.Ctx(), rd) })
+			dec, b2term, dg := "DecErr", "None", "None"
+			desc := map[string]any{"type": "packet.AvailableCommands", "state": r.StateName, "dir": r.Dir.String(), "protocol": int(r.Proto), "id": int(r.ID),
+				"bytes1_hex": hexTrunc(b1.Bytes()), "graph": shape}
+			if derr == nil {
+				dec = fmt.Sprintf("(DecOk %d%%N)", rd.Len())
+				var b2 bytes.Buffer
+				if err := util.RecoverFunc(func() error { return p2.Encode(r.Ctx(), &b2) }); err == nil {
+					b2term = lib.Some(lib.Bytes(b2.Bytes()))
+				}
+				if d := p2.(*packet.AvailableCommands).RootNode; d != nil {
+					dg = lib.Some(graphTerm(d))
+				}
+			} else {
+				desc["decode_error"] = derr.Error()
+			}
+			term := lib.App("Check.C04.mk", `"packet.AvailableCommands"`, lib.Z(int64(r.Proto)), lib.Bool(r.Dir == proto.ClientBound),
+				"FX", lib.Bytes(b1.Bytes()), dec, "FX", b2term, lib.Some(lib.Pair(orig, dg)))
+			out.Add(term, desc, true, "type=packet.AvailableCommands", fmt.Sprintf("protocol=%d", r.Proto), "family=command-graph", "graph="+shape)
 		}
 	}
 	names := pktgen.TypeNames(regs)
@@ -185,4 +236,147 @@ func hexTrunc(b []byte) string {
 		return fmt.Sprintf("%x…(%d bytes)", b[:200], len(b))
 	}
 	return fmt.Sprintf("%x", b)
+}
+
+var noopCmd = brigodier.CommandFunc(func(*brigodier.CommandContext) error { return nil })
+
+// cmdGraph builds a random brigadier graph: literals and bool / string / integer arguments, executable flags, and
+// redirects to a node inside the tree, to the root, or to a DETACHED node (a sub tree that is nobody's child - what the
+// proxy produces when it injects its own commands with Redirect(&dispatcher.Root) into a backend's tree)
+func cmdGraph(r *lib.Rng) (*brigodier.RootCommandNode, string) {
+	argType := func() brigodier.ArgumentType {
+		switch r.Intn(6) {
+		case 0:
+			return brigodier.Bool
+		case 1:
+			return brigodier.StringWord
+		case 2:
+			return brigodier.String
+		case 3:
+			return brigodier.StringPhrase
+		case 4:
+			return brigodier.Int
+		}
+		return &brigodier.Int32ArgumentType{Min: int32(-r.Intn(100)), Max: int32(r.Intn(1000))}
+	}
+	name := func(p string, i int) string { return fmt.Sprintf("%s%d%s", p, i, r.StringOver("abcxyz", r.Intn(3))) }
+	sub := func(nm string) brigodier.CommandNode {
+		l := brigodier.Literal(nm)
+		if r.Bool() {
+			l.Executes(noopCmd)
+		}
+		for j, n := 0, r.Intn(3); j < n; j++ {
+			a := brigodier.Argument(name("a", j), argType())
+			if r.Bool() {
+				a.Executes(noopCmd)
+			}
+			if r.Chance(1, 3) {
+				a.Then(brigodier.Argument(name("b", j), argType()).Executes(noopCmd))
+			}
+			l.Then(a)
+		}
+		return l.Build()
+	}
+	root := &brigodier.RootCommandNode{}
+	var inTree []brigodier.CommandNode
+	for i, n := 0, 1+r.Intn(3); i < n; i++ {
+		nd := sub(name("l", i))
+		inTree = append(inTree, nd)
+		root.AddChild(nd)
+	}
+	shape := "plain"
+	switch r.Intn(4) {
+	case 0:
+		root.AddChild(brigodier.Literal("alias").Redirect(inTree[r.Intn(len(inTree))]).Build())
+		shape = "redirect-in-tree"
+	case 1:
+		root.AddChild(brigodier.Literal("again").Executes(noopCmd).Redirect(root).Build())
+		shape = "redirect-root"
+	case 2:
+		root.AddChild(brigodier.Literal("alias").Redirect(sub("detached")).Build())
+		shape = "redirect-detached"
+	}
+	if r.Chance(1, 3) {
+		second := &brigodier.RootCommandNode{}
+		second.AddChild(sub("other"))
+		root.AddChild(brigodier.Literal("proxy").Redirect(second).Build())
+		shape += "+second-root"
+	}
+	return root, shape
+}
+
+// graphTerm prints a command graph as a node table (Model.AvailCmds.node), numbered by a walk from the root:
+// children in name order, then the redirect target
+func graphTerm(root brigodier.CommandNode) string {
+	idx := map[brigodier.CommandNode]int{}
+	var order []brigodier.CommandNode
+	queue := []brigodier.CommandNode{root}
+	sortedChildren := func(n brigodier.CommandNode) []brigodier.CommandNode {
+		var names []string
+		for nm := range n.Children() {
+			names = append(names, nm)
+		}
+		sort.Strings(names)
+		var out []brigodier.CommandNode
+		for _, nm := range names {
+			out = append(out, n.Children()[nm])
+		}
+		return out
+	}
+	for len(queue) > 0 {
+		n := queue[0]
+		queue = queue[1:]
+		if _, ok := idx[n]; ok {
+			continue
+		}
+		idx[n] = len(order)
+		order = append(order, n)
+		queue = append(queue, sortedChildren(n)...)
+		if n.Redirect() != nil {
+			queue = append(queue, n.Redirect())
+		}
+	}
+	var nodes []string
+	for _, n := range order {
+		kind, parser := 0, 0
+		var props []byte
+		switch t := n.(type) {
+		case *brigodier.LiteralCommandNode:
+			kind = 1
+		case *brigodier.ArgumentCommandNode:
+			kind = 2
+			switch at := t.Type().(type) {
+			case *brigodier.BoolArgumentType:
+				parser = 0
+			case brigodier.StringType:
+				parser, props = 5, []byte{byte(at)}
+			case *brigodier.Int32ArgumentType:
+				parser = 3
+				var fl byte
+				var tail []byte
+				if at.Min != brigodier.MinInt32 {
+					fl |= 1
+					tail = append(tail, byte(uint32(at.Min)>>24), byte(uint32(at.Min)>>16), byte(uint32(at.Min)>>8), byte(uint32(at.Min)))
+				}
+				if at.Max != brigodier.MaxInt32 {
+					fl |= 2
+					tail = append(tail, byte(uint32(at.Max)>>24), byte(uint32(at.Max)>>16), byte(uint32(at.Max)>>8), byte(uint32(at.Max)))
+				}
+				props = append([]byte{fl}, tail...)
+			default:
+				parser = 99
+			}
+		}
+		var ch []string
+		for _, c := range sortedChildren(n) {
+			ch = append(ch, lib.N(uint64(idx[c])))
+		}
+		red := "None"
+		if n.Redirect() != nil {
+			red = lib.Some(lib.N(uint64(idx[n.Redirect()])))
+		}
+		nodes = append(nodes, lib.App("AvailCmds.mknode", lib.N(uint64(kind)), lib.Str(n.Name()), lib.Bool(n.Command() != nil), lib.List(ch), red,
+			lib.N(uint64(parser)), lib.Bytes(props)))
+	}
+	return lib.Pair(lib.List(nodes), lib.N(0))
 }
